@@ -128,6 +128,21 @@ def ref_logw_logz(logl_batches, betas, logzs, beta_final):
     return logw - logsumexp(logw), float(logz)
 
 
+def raise_site(exc):
+    """Innermost frame of the library (a file under tempest/) on the traceback of `exc`: 'module.function'."""
+    import traceback as _tb
+
+    site = "?"
+    try:
+        for fs in _tb.extract_tb(exc.__traceback__):
+            fn = fs.filename.replace(os.sep, "/")
+            if "/tempest/" in fn and "/_verif" not in fn:
+                site = os.path.splitext(os.path.basename(fn))[0] + "." + fs.name
+    except Exception:
+        pass
+    return site
+
+
 class _R:
     """placeholder for a float to be replaced by its order rank in `space` when the trace is finalised"""
 
@@ -627,7 +642,7 @@ class Recorder:
         if self._ev is None:
             self._ev = []
             self._cfg = self._cfg or {}
-        self._emit("Raised", what=repr(exc)[:300], step=(self._ev[-1]["ev"] if self._ev else "start"))
+        self._emit("Raised", what=repr(exc)[:300], step=(self._ev[-1]["ev"] if self._ev else "start"), site=raise_site(exc), exc=type(exc).__name__)
 
     def posterior_event(self, flags, out, blobs_configured):
         """Project one posterior() call (C12)."""
